@@ -390,7 +390,7 @@ def race_once(plan_, ncallers, outcome, tape_msgs, body="plain"):
 
 def part_race(spec, res):
     rng = random.Random("%s:C06:r:%d" % (spec["seed"], spec["i"]))
-    sched.instrument([_action])
+    sched.instrument([_action], post_call=True)  # also between a call and the use of its result inside one line
     ncallers = rng.choice([2, 2, 3, 4])
     outcome = rng.choice(["return", "raise"])
     names = ["C%d" % k for k in range(ncallers)]
